@@ -6,9 +6,17 @@ Lean specification (packed padded sequence cut every `size` items) and with Pyth
 `struct.pack` of the padded sequence; (b) WAV files written with the standard `wave` module
 (8/16/24/32 bit x mono/stereo x extremes of each width) read back through `WavStream` (keep
 True/False), values compared exactly (normalised values are exact dyadic floats), header
-attributes and the open/closed state of the file after k `next()` calls.
+attributes and the open/closed state of the file after k `next()` calls; (c) "concurrent" cases:
+2-3 chunk generators and/or WavStreams alive at once, advanced by `next()` in the interleaving
+given by the case (a schedule list), including re-entrant use (the source iterable of one chunk
+generator advances another generator when asked for its k-th item, i.e. while the first one is
+suspended in the middle of filling a chunk, or is itself the decoded output of another chunk
+generator after a header) -- every generator is compared with the Lean model/spec of THAT
+generator alone: the property quantifies over every call, so a generator is a function of its own
+arguments only, whatever else is alive.  Yielded chunks are also re-read at the end of each case
+(a chunk that changes after it was yielded is a violation: `b"".join(chunks(...))` reads them late).
 """
-import io, itertools, os, struct, sys, tempfile, wave
+import hashlib, io, itertools, json, os, struct, sys, tempfile, wave
 import common
 from common import enc, err_kind
 
@@ -17,8 +25,12 @@ RULE = ("chunks: exhaustive grid (format x byte-order spelling x size 1..9 x len
         "range extremes among the values, plus random larger cases and a small malformed stream (value out "
         "of range, float into an integer format, default float pad with integer formats); wav: every width x "
         "channel count x keep x 0..6 frames of extreme values, plus random files up to 40 frames and truncated "
-        "files; non-trivial = at least one item in the input sequence / one sample in the file; "
-        "distinct = distinct JSON case")
+        "files; concurrent: a grid (strategy pair x format x size 2..4 x every position of the re-entrant "
+        "advance x length of the other generator) plus random groups of 2-3 generators (same / different "
+        "strategy, dfmt, size, byte order; WavStreams over the same / different files) with random schedules, "
+        "re-entrant sources, re-chunking pipelines, partial consumption and malformed members; "
+        "non-trivial = at least one item in the input sequence / one sample in the file (concurrent: in some "
+        "generator); distinct = distinct JSON case")
 TRUSTED = [
     "hand-written Lean model ALV/Model/C18.lean of lazy_io.chunks (struct and array strategies) and "
     "lazy_wav.WavStream (modelled, not verified: struct.Struct, array.array, wave.Wave_read.readframes, "
@@ -30,6 +42,13 @@ TRUSTED = [
     "order is not native, zero-initialised working array); the unrepaired code cannot satisfy the property",
     "the byte layout of the PCM files is produced by the standard `wave` module from bytes built by "
     "int.to_bytes in this harness; the Lean spec's pcmData is compared with those bytes on every case",
+    "isolation of generators: in the Lean model chunksStruct / chunksArray / wavStream are pure functions of "
+    "one call's arguments, so 'the output depends only on the generator's own arguments, whatever other "
+    "generators are alive or interleaved' holds there by construction (no theorem is needed or stated); for "
+    "/repo it is checked by the concurrent cases only: single-threaded interleavings given by a schedule, "
+    "with re-entrant sources standing for a second thread that runs while a generator is suspended in its "
+    "source (real threads are not started); in those cases the expected open/closed state of a WavStream "
+    "after k next() calls is Spec.closedAfter (n < k), which theorem wav_lazy_and_closed equates with the model",
 ]
 ASSUMPTIONS = [
     "size >= 1; values representable in the format (integers in range, doubles within the float32 range "
@@ -47,12 +66,16 @@ MANIFEST = {
              "when the end is reached; chunks.struct and chunks.array (repaired as proposed for D5) both equal the "
              "specification 'pack the sequence followed by (-len) mod size pad values, cut every size items' for "
              "every size, length, byte order, machine order and element encoder, including where they stop on an "
-             "unpackable item; tied to /repo by a differential correspondence on every check"),
+             "unpackable item; tied to /repo by a differential correspondence on every check, which also runs "
+             "groups of 2-3 chunk generators / WavStreams alive at once (interleaved by a schedule, re-entrant "
+             "sources, re-chunking pipelines, same file read twice) and demands of each the output of that call alone"),
     "note": ("Trusted: Lean kernel, axioms propext/Classical.choice/Quot.sound, the Python harness; struct, array, "
              "wave and the IEEE-754 encoders of f/d are not modelled (the theorems take the element encoder as a "
              "parameter; the driver's Float.toBits / toFloat32 bytes are compared with struct.pack on every float "
              "case).  chunks.array in /repo is defective today (D5, D5b: known findings with a proposed fix); its "
-             "model is the repaired code."),
+             "model is the repaired code.  Independence of a generator from other live generators is true by "
+             "construction in the (pure) model and is checked for /repo by single-threaded interleavings only; "
+             "races that need a pre-emptive thread switch inside one call are not observable by the tie."),
 }
 
 NATIVE = "<" if sys.byteorder == "little" else ">"
@@ -259,6 +282,7 @@ def generate(rng, tier, scale=1):
         samples = [rand_sample(rng, bits) for _ in range(nf * channels)]
         cut = rng.randint(1, bits // 8 * channels - 1)
         cases.append(wav_case(bits, channels, rng.random() < 0.5, samples, cut=cut))
+    cases.extend(generate_conc(rng, tier, scale))
     return cases
 
 
@@ -361,7 +385,7 @@ def impl_chunks(c):
     if c.get("pad_route") != "default":
         kw["padval"] = j2v(c["pad"])
     old = chunks.size
-    out, err, msg = [], None, None
+    out, raw, err, msg = [], [], None, None
     try:
         if c.get("size_route") == "default":
             chunks.size = c["size"]
@@ -369,19 +393,26 @@ def impl_chunks(c):
             kw["size"] = c["size"]
         try:
             for ch in f(seq, **kw):
+                raw.append(ch)
                 out.append(list(bytes(ch)))
         except Exception as e:
             err, msg = _kind(e), str(e)[:100]
     finally:
         chunks.size = old
-    return {"out": out, "err": err, "msg": msg}
+    # the chunks are read again once the generator is finished (what b"".join(chunks(...)) sees)
+    aliased = any(list(bytes(r)) != o for r, o in zip(raw, out))
+    return {"out": out, "err": err, "msg": msg, "aliased": aliased}
 
 
 def impl(c):
+    if c["entry"] == "conc":
+        return impl_conc(c)
     return impl_wav(c) if c["entry"] == "wav" else impl_chunks(c)
 
 
 def request(c):
+    if c["entry"] == "conc":
+        return {"entry": "conc", "gens": [request(conc_single(c, i)) for i in range(len(c["gens"]))]}
     if c["entry"] == "chunks":
         return {"entry": "chunks", "fmt": c["fmt"], "native": NATIVE, "order": ORDER_REQ[c["order"]],
                 "size": c["size"], "pad": c["pad"], "xs": c["xs"]}
@@ -411,7 +442,12 @@ def python_pack(c):
 
 def compare(c, io_, drv):
     out = []
+    if c["entry"] == "conc":
+        return compare_conc(c, io_, drv)
     if c["entry"] == "chunks":
+        if io_.get("aliased"):
+            out.append(("spec", "a chunk of chunks.%s changed after it was yielded (the generator reuses the "
+                        "object it yields)" % c["strategy"]))
         m = drv[c["strategy"]]
         sp = drv["spec"] if c["strategy"] == "struct" else drv["spec_array"]
         if io_["out"] != m["out"] or io_["err"] != m["err"]:
@@ -488,11 +524,15 @@ def _s(x, n=160):
 
 
 def nontrivial(c, io_):
+    if c["entry"] == "conc":
+        return len(c["gens"]) >= 2 and any(nontrivial(conc_single(c, i), None) for i in range(len(c["gens"])))
     return bool(c["xs"]) if c["entry"] == "chunks" else bool(c["samples"])
 
 
 def tally(eng, c, io_):
     eng.count("entry", c["entry"])
+    if c["entry"] == "conc":
+        return tally_conc(eng, c, io_)
     if c["entry"] == "chunks":
         eng.count("chunks.strategy", c["strategy"])
         eng.count("chunks.fmt", c["fmt"])
@@ -532,6 +572,10 @@ def tally(eng, c, io_):
 
 
 def shrink(c):
+    if c["entry"] == "conc":
+        for d in shrink_conc(c):
+            yield d
+        return
     if c["entry"] == "chunks":
         xs = c["xs"]
         if xs:
@@ -559,6 +603,8 @@ def shrink(c):
             yield dict(c, order="omit")
         if c["pad"] not in (0, 1) and isinstance(c["pad"], int):
             yield dict(c, pad=1)
+        if isinstance(c["pad"], dict) and c.get("pad_route") != "default" and c["fmt"] in "fd":
+            yield dict(c, pad=1)
     else:
         s, ch = c["samples"], c["channels"]
         if s:
@@ -580,6 +626,13 @@ def shrink(c):
 
 
 def neighbours(c):
+    if c["entry"] == "conc":
+        for i, g in enumerate(c["gens"]):
+            if g["entry"] == "chunks":
+                yield _with_gen(c, i, dict(g, strategy="array" if g["strategy"] == "struct" else "struct"))
+        yield dict(c, drain=not c.get("drain"))
+        yield dict(c, schedule=c["schedule"] + list(range(len(c["gens"]))) * 2)
+        return
     if c["entry"] == "chunks":
         for ds in (-1, 0, 1):
             for dn in (-1, 0, 1):
@@ -601,7 +654,11 @@ def neighbours(c):
 
 
 def classify(c, io_, drv):
+    if c["entry"] == "conc":
+        return classify_conc(c, io_, drv)
     if c["entry"] == "chunks":
+        if io_.get("aliased"):
+            return "chunks.%s:%s:chunk-mutated-after-yield" % (c["strategy"], c["fmt"])
         st = c["strategy"]
         sp = drv["spec"] if st == "struct" else drv["spec_array"]
         err = io_.get("err")
@@ -648,3 +705,745 @@ def extra_checks(eng):
     ok = all(array.array(f).itemsize == WIDTH[f] for f in "bhifd")
     yield ("array-itemsizes-standard", ok, "array.array itemsize of b h i f d is not 1 2 4 4 8 on this machine")
     yield ("byteorder-known", sys.byteorder in ("little", "big"), "sys.byteorder=%r" % (sys.byteorder,))
+
+
+# ==============================================================================================
+# concurrent cases: several generators alive at once, each compared with the model of itself alone
+# ==============================================================================================
+#   {"entry": "conc", "gens": [G0, G1, ...], "schedule": [i, j, i, ...], "drain": bool}
+# Gk is a chunks case or a wav case (same fields as the single cases).  Every schedule item is one
+# next() on that generator; with "drain" the generators are then exhausted in index order, without it
+# they stay partially consumed.  A chunks member may carry a re-entrant source
+#   "src": {"kind": "hook", "at": [[k, j], ...]}       before handing out its k-th item (k = len(xs): before
+#                                                       StopIteration) the source advances generator j once
+#   "src": {"kind": "rechunk", "from": j, "header": [...]}   the source is header ++ the decoded chunks of
+#                                                       generator j, pulled lazily (its own "xs" is unused)
+# References only go to higher indices (no cycles).  WavStreams with route "path" and identical file
+# bytes read the same file on disk.
+
+def conc_case(gens, schedule, drain=True):
+    return {"entry": "conc", "gens": gens, "schedule": schedule, "drain": drain}
+
+
+def _prefix(order):
+    return "" if order in ("omit", None) else order
+
+
+def _packable_ints(g):
+    """an integer-format chunks member whose items and padval all pack (its chunks can be decoded and re-fed)"""
+    if g["fmt"] not in "bhi" or g.get("malformed"):
+        return False
+    lo, hi = int_range(g["fmt"])
+    return all(isinstance(v, int) and lo <= v <= hi for v in list(g["xs"]) + [g["pad"]])
+
+
+def _links(c):
+    """normalised sources (None = plain), ignoring references that are not allowed"""
+    gens = c["gens"]
+    n = len(gens)
+    out, taken = [], set()
+    for i, g in enumerate(gens):
+        src = g.get("src") if g["entry"] == "chunks" else None
+        if not src:
+            out.append(None)
+        elif src["kind"] == "hook":
+            at = [[k, j] for k, j in src["at"] if i < j < n and 0 <= k <= len(g["xs"])]
+            out.append({"kind": "hook", "at": at} if at else None)
+        else:
+            j = src["from"]
+            ok = i < j < n and j not in taken and gens[j]["entry"] == "chunks" and _packable_ints(gens[j])
+            if ok:
+                taken.add(j)
+                out.append({"kind": "rechunk", "from": j, "header": src["header"]})
+            else:
+                out.append(None)
+    return out
+
+
+def conc_xs(c, i, links=None):
+    """the input sequence of generator i: its own argument, spelled out"""
+    g = c["gens"][i]
+    src = (links or _links(c))[i]
+    if src and src["kind"] == "rechunk":
+        s = c["gens"][src["from"]]
+        sx = conc_xs(c, src["from"], links)
+        return list(src["header"]) + list(sx) + [s["pad"]] * ((-len(sx)) % s["size"])
+    if g.get("src") and g["src"]["kind"] == "rechunk":
+        return list(g["src"]["header"])          # reference not allowed: the header alone
+    return g["xs"]
+
+
+def conc_single(c, i):
+    """generator i as a case of its own (what the Lean model is asked)"""
+    g = c["gens"][i]
+    if g["entry"] == "wav":
+        return dict(g, take=None)
+    d = dict(g, xs=conc_xs(c, i))
+    d.pop("src", None)
+    d.pop("size_route", None)         # chunks.size is (legitimately) global: see _default_size
+    d.pop("seq_route", None)
+    return d
+
+
+def _default_size(c):
+    """chunks.size is a documented global, read when a generator starts: it is set once for the whole case,
+    to the size of the first member that asks for the default; only members of that size leave `size` out"""
+    for g in c["gens"]:
+        if g["entry"] == "chunks" and g.get("size_route") == "default":
+            return g["size"]
+    return None
+
+
+def _with_gen(c, i, g):
+    gens = list(c["gens"])
+    gens[i] = g
+    return dict(c, gens=gens)
+
+
+def impl_conc(c):
+    from audiolazy import chunks, Stream, WavStream
+    gens = c["gens"]
+    n = len(gens)
+    links = _links(c)
+    sources = {l["from"] for l in links if l and l["kind"] == "rechunk"}
+    st = [{"it": None, "out": [], "raw": [], "done": None, "msg": None, "calls": 0, "running": False,
+           "started": False} for _ in gens]
+    peak = [0]
+    paths, fobjs = set(), []
+    dsize, old_size = _default_size(c), chunks.size
+
+    def advance(j):
+        s = st[j]
+        if s["it"] is None or s["done"] is not None or s["running"]:
+            return None
+        s["running"] = s["started"] = True
+        s["calls"] += 1
+        peak[0] = max(peak[0], sum(1 for t in st if t["started"] and t["done"] is None))
+        try:
+            item = next(s["it"])
+        except StopIteration:
+            s["done"] = "stop"
+            return None
+        except Exception as e:
+            s["done"], s["msg"] = _kind(e), str(e)[:100]
+            return None
+        finally:
+            s["running"] = False
+        if gens[j]["entry"] == "chunks":
+            s["raw"].append(item)
+            s["out"].append(list(bytes(item)))
+        else:
+            s["out"].append(item)
+        return item
+
+    def hook_source(xs, at):
+        def gen():
+            for k, x in enumerate(xs):
+                for j in at.get(k, ()):
+                    advance(j)
+                yield x
+            for j in at.get(len(xs), ()):
+                advance(j)
+        return gen()
+
+    def rechunk_source(header, j):
+        s = gens[j]
+        fmt = "%s%d%s" % (_prefix(s["order"]), s["size"], s["fmt"])
+        def gen():
+            for h in header:
+                yield h
+            while True:
+                ch = advance(j)
+                if ch is None:
+                    return
+                for v in struct.unpack(fmt, bytes(ch)):
+                    yield v
+        return gen()
+
+    try:
+        for i, g in enumerate(gens):
+            s = st[i]
+            if g["entry"] == "chunks":
+                f = chunks.struct if g["strategy"] == "struct" else chunks.array
+                xs = [j2v(x) for x in g["xs"]]
+                src = links[i]
+                if src is None:
+                    if g.get("src"):
+                        xs = [j2v(x) for x in conc_xs(c, i, links)]
+                    sr = g.get("seq_route")
+                    seq = iter(xs) if sr == "iter" else Stream(xs) if sr == "stream" else tuple(xs) if sr == "tuple" else xs
+                elif src["kind"] == "hook":
+                    at = {}
+                    for k, j in src["at"]:
+                        at.setdefault(k, []).append(j)
+                    seq = hook_source(xs, at)
+                else:
+                    seq = rechunk_source([j2v(x) for x in src["header"]], src["from"])
+                kw = {"dfmt": g["fmt"]}
+                if not (g.get("size_route") == "default" and g["size"] == dsize):
+                    kw["size"] = g["size"]
+                if g["order"] != "omit":
+                    kw["byte_order"] = g["order"]
+                if g.get("pad_route") != "default":
+                    kw["padval"] = j2v(g["pad"])
+                try:
+                    s["it"] = iter(f(seq, **kw))
+                except Exception as e:
+                    s["done"], s["msg"] = "call:" + _kind(e), str(e)[:100]
+            else:
+                blob = wav_file_bytes(g)
+                fobj = None
+                try:
+                    if g.get("route", "path") == "path":
+                        path = os.path.join(_tmpdir(), "k%s.wav" % hashlib.sha1(blob).hexdigest()[:16])
+                        if path not in paths:
+                            with open(path, "wb") as fh:
+                                fh.write(blob)
+                            paths.add(path)
+                        ws = WavStream(path, g["keep"])
+                        fobj = getattr(ws._file, "_i_opened_the_file", None)
+                        if fobj is not None:
+                            fobjs.append(fobj)
+                    elif g["route"] == "fileobj":
+                        ws = WavStream(io.BytesIO(blob), g["keep"])
+                    else:
+                        ws = WavStream(io.BytesIO(blob), keep=g["keep"]) if g["keep"] else WavStream(io.BytesIO(blob))
+                    s["ws"], s["fobj"] = ws, fobj
+                    s["hdr"] = [ws.rate, ws.channels, ws.bits]
+                    s["open_before"] = ws._file.getfp() is not None and (fobj is None or not fobj.closed)
+                    s["it"] = iter(ws)
+                except Exception as e:
+                    s["done"] = "open:" + _kind(e)
+        if dsize is not None:
+            chunks.size = dsize
+        for j in c["schedule"]:
+            if isinstance(j, int) and 0 <= j < n and j not in sources:
+                advance(j)
+        if c.get("drain"):
+            for j in range(n):
+                for _ in range(200000):
+                    if st[j]["it"] is None or st[j]["done"] is not None:
+                        break
+                    advance(j)
+        obs = []
+        for g, s in zip(gens, st):
+            o = {"done": s["done"], "msg": s["msg"], "calls": s["calls"]}
+            if g["entry"] == "chunks":
+                o["out"] = s["out"]
+                o["aliased"] = any(list(bytes(r)) != b for r, b in zip(s["raw"], s["out"]))
+            else:
+                kinds = sorted({type(x).__name__ for x in s["out"]})
+                o["kind"] = "none" if not kinds else (kinds[0] if len(kinds) == 1 else "mixed:" + ",".join(kinds))
+                o["out"] = [enc(x) for x in s["out"]]
+                if "ws" in s:
+                    closed = s["ws"]._file.getfp() is None
+                    if s["fobj"] is not None:
+                        closed = closed and s["fobj"].closed
+                    o["closed"], o["hdr"], o["open_before"] = closed, s["hdr"], s["open_before"]
+            obs.append(o)
+        return {"gens": obs, "peak_alive": peak[0]}
+    finally:
+        chunks.size = old_size
+        for s in st:                       # finish suspended generators now, not at some later collection
+            it = s.get("it")
+            if it is not None and hasattr(it, "close") and not s["running"]:
+                try:
+                    it.close()
+                except Exception:
+                    pass
+        for f in fobjs:
+            if not f.closed:
+                f.close()
+        for p in paths:
+            try:
+                os.remove(p)
+            except OSError:
+                pass
+
+
+def _expect(full_out, full_err, k):
+    """k next() calls on a generator whose complete run is full_out then full_err (None = StopIteration)"""
+    return full_out[:k], (None if k <= len(full_out) else (full_err or "stop"))
+
+
+def _cat(done):
+    return done if done in (None, "stop") else "error"
+
+
+def compare_conc(c, io_, drv):
+    res = []
+    n = len(c["gens"])
+    if "gens" not in io_:
+        return [("model", "concurrent case could not be run: %s" % _s(io_)), ("spec", "not run")]
+    for i in range(n):
+        g, o, p = conc_single(c, i), io_["gens"][i], drv["gens"][i]
+        for kind, d in (_cmp_chunks_member if g["entry"] == "chunks" else _cmp_wav_member)(g, o, p):
+            res.append((kind, "generator %d of %d (%s): %s" % (i, n, _member_name(g), d)))
+    return res
+
+
+def _member_name(g):
+    if g["entry"] == "chunks":
+        return "chunks.%s %s%s size=%d" % (g["strategy"], _prefix(g["order"]), g["fmt"], g["size"])
+    return "WavStream %dbit x%d keep=%s" % (g["bits"], g["channels"], g["keep"])
+
+
+def _cmp_chunks_member(g, o, p):
+    out = []
+    k = o["calls"]
+    m = p[g["strategy"]]
+    sp = p["spec"] if g["strategy"] == "struct" else p["spec_array"]
+    mo, md = _expect(m["out"], m["err"], k)
+    so, sd = _expect(sp["out"], sp["err"], k)
+    if o["out"] != mo or o["done"] != md:
+        out.append(("model", "after %d next() calls differs from the model of this generator alone: impl=%s/%s "
+                    "model=%s/%s" % (k, _s(o["out"]), o["done"], _s(mo), md)))
+    if o["out"] != so or _cat(o["done"]) != _cat(sd):
+        out.append(("spec", "after %d next() calls differs from the spec of this generator alone: impl=%s/%s "
+                    "spec=%s/%s" % (k, _s(o["out"]), o["done"], _s(so), sd)))
+    elif o.get("aliased"):
+        out.append(("spec", "a chunk changed after it was yielded"))
+    elif o["done"] == "stop":
+        w = WIDTH[g["fmt"]]
+        flat = bytes(b for ch in o["out"] for b in ch)
+        ref = python_pack(g)
+        if any(len(ch) != g["size"] * w for ch in o["out"]):
+            out.append(("spec", "a chunk is not size*width bytes"))
+        elif ref is not None and flat != ref:
+            out.append(("spec", "concatenated chunks differ from struct.pack of the padded sequence"))
+    return out
+
+
+def _cmp_wav_member(g, o, p):
+    out = []
+    if "hdr" not in o:
+        return [("model", "WavStream could not be opened: %s" % o["done"]), ("spec", "open failed")]
+    k = o["calls"]
+    m = p["model"]
+    mo, md = _expect(m["out"], m["err"], k)
+    if o["out"] != mo or o["done"] != md or (mo and o["kind"] != m["kind"]):
+        out.append(("model", "after %d next() calls differs from the model of this stream alone: impl=%s/%s/%s "
+                    "model=%s/%s/%s" % (k, _s(o["out"]), o["done"], o["kind"], _s(mo), md, m["kind"])))
+    if o["hdr"] != [m["rate"], m["channels"], m["bits"]]:
+        out.append(("model", "header attributes differ from the model"))
+    if m["err"] is None and o["done"] in (None, "stop") and o["closed"] != (k > len(m["out"])):
+        out.append(("model", "closed=%s after %d next() calls on %d samples" % (o["closed"], k, len(m["out"]))))
+    if "spec_any" in p and "spec" in p:
+        so = p["spec_any"]["out"][:k]
+        if o["out"] != so or (so and o["kind"] != p["spec_any"]["kind"]):
+            out.append(("spec", "samples differ from the decoded data chunk (storedValue): impl=%s spec=%s" % (
+                _s(o["out"]), _s(so))))
+    if "spec" in p:
+        sp = p["spec"]
+        so, sd = _expect(sp["out"], None, k)
+        if not sp["valid"]:
+            raise common.InfraError("C18 generator produced a sample outside the stored range: %r" % (g,))
+        if o["out"] != so or o["done"] != sd or (so and o["kind"] != sp["kind"]):
+            out.append(("spec", "after %d next() calls differs from the spec of this stream alone: impl=%s/%s/%s "
+                        "spec=%s/%s/%s" % (k, _s(o["out"]), o["done"], o["kind"], _s(so), sd, sp["kind"])))
+        if o["hdr"] != [g["rate"], g["channels"], g["bits"]]:
+            out.append(("spec", "rate/channels/bits do not mirror the header: %r" % (o["hdr"],)))
+        if not o["open_before"]:
+            out.append(("spec", "file not open before reading"))
+        if o["done"] == "stop" and not o["closed"]:
+            out.append(("spec", "file still open after the stream was exhausted"))
+        if not g["keep"] and any(not (-1 <= common.dec(x) < 1) for x in o["out"]):
+            out.append(("spec", "normalised sample outside [-1,1)"))
+    return out
+
+
+def _chunk_key(g, full=False):
+    return (g["strategy"], g["fmt"], g["size"], ORDER_REQ[g["order"]]) if full else (g["fmt"], g["size"])
+
+
+def _conc_profile(c):
+    """(kinds, key relation, mode, mid-fill re-entry into a same-key generator)"""
+    gens = c["gens"]
+    links = _links(c)
+    ch = [g for g in gens if g["entry"] == "chunks"]
+    wv = [g for g in gens if g["entry"] == "wav"]
+    kinds = "chunks-only" if not wv else "wav-only" if not ch else "chunks+wav"
+    rel = "n/a"
+    if len(ch) >= 2:
+        ks = [_chunk_key(g) for g in ch]
+        fs = [_chunk_key(g, True) for g in ch]
+        rel = ("same-strategy-dfmt-size-order" if len(set(fs)) < len(fs) else
+               "same-dfmt-size" if len(set(ks)) < len(ks) else "different-key")
+    modes = {l["kind"] for l in links if l}
+    mode = "rechunk+hook" if len(modes) == 2 else "re-entrant-hook" if "hook" in modes else \
+        "re-entrant-rechunk" if "rechunk" in modes else "alternating"
+    mid = False
+    for i, l in enumerate(links):
+        if not l:
+            continue
+        gi = gens[i]
+        if l["kind"] == "hook":
+            for k, j in l["at"]:
+                if k % gi["size"] and gens[j]["entry"] == "chunks" and _chunk_key(gens[j]) == _chunk_key(gi):
+                    mid = True
+        elif len(l["header"]) % gi["size"] and _chunk_key(gens[l["from"]]) == _chunk_key(gi):
+            mid = True
+    return kinds, rel, mode, mid
+
+
+def tally_conc(eng, c, io_):
+    gens = c["gens"]
+    kinds, rel, mode, mid = _conc_profile(c)
+    eng.count("conc.generators", len(gens))
+    eng.count("conc.kinds", kinds)
+    eng.count("conc.chunk_keys", rel)
+    eng.count("conc.mode", mode)
+    eng.count("conc.reentry_midfill_same_key", mid)
+    L = len(c["schedule"])
+    eng.count("conc.schedule_len", L if L < 4 else "4-9" if L < 10 else "10-29" if L < 30 else "30+")
+    eng.count("conc.drain", bool(c.get("drain")))
+    ds = _default_size(c)
+    eng.count("conc.size_route", "explicit" if ds is None else "chunks.size=%s" % (ds if ds != 2048 else "2048(real default)"))
+    pads = [json.dumps(g["pad"]) for g in gens if g["entry"] == "chunks"]
+    if len(pads) >= 2:
+        eng.count("conc.padvals", "some-equal" if len(set(pads)) < len(pads) else "all-different")
+    if "gens" in io_:
+        eng.count("conc.peak_alive", io_["peak_alive"])
+        eng.count("conc.unfinished_at_end", sum(1 for o in io_["gens"] if o["done"] is None))
+        eng.count("conc.member_errors", sum(1 for o in io_["gens"] if o["done"] not in (None, "stop")))
+    wv = [g for g in gens if g["entry"] == "wav"]
+    if len(wv) >= 2:
+        blobs = [(g.get("route", "path"), wav_file_bytes(g)) for g in wv]
+        same = any(a == b and a[0] == "path" for i, a in enumerate(blobs) for b in blobs[i + 1:])
+        eng.count("conc.wav_files", "same-file-on-disk" if same else "different-files")
+    for g in gens:
+        if g["entry"] == "chunks":
+            eng.count("conc.member", "chunks.%s:%s" % (g["strategy"], g["fmt"]))
+        else:
+            eng.count("conc.member", "wav:%d:x%d:%s" % (g["bits"], g["channels"], "keep" if g["keep"] else "norm"))
+
+
+def classify_conc(c, io_, drv):
+    """first member that differs: kind of member, whether the same call is right when it runs alone
+    (interference between generators) or wrong by itself, and what differs"""
+    if "gens" not in io_:
+        return "conc:not-run"
+    for i in range(len(c["gens"])):
+        g, o, p = conc_single(c, i), io_["gens"][i], drv["gens"][i]
+        if not (_cmp_chunks_member if g["entry"] == "chunks" else _cmp_wav_member)(g, o, p):
+            continue
+        try:
+            alone = not compare(g, impl(g), p)
+        except Exception:
+            alone = False
+        tag = "interference" if alone else "wrong-alone-too"
+        if g["entry"] == "chunks":
+            what = "chunk-mutated-after-yield" if o.get("aliased") else \
+                "error-state" if _cat(o["done"]) == "error" else "bytes"
+            return "conc:chunks.%s:%s:%s:%s" % (g["strategy"], g["fmt"], tag, what)
+        return "conc:wav:%dbit:%s:%s" % (g["bits"], "keep" if g["keep"] else "norm", tag)
+    return "conc:other"
+
+
+# ---------------------------------------------------------------------------------------------
+def _drop_gen(c, r):
+    gens = c["gens"]
+    links = _links(c)
+    new = []
+    for i, g in enumerate(gens):
+        if i == r:
+            continue
+        g = dict(g)
+        src = g.pop("src", None) if g["entry"] == "chunks" else None
+        if src:
+            if src["kind"] == "hook":
+                at = [[k, j - (j > r)] for k, j in src["at"] if j != r]
+                if at:
+                    g["src"] = {"kind": "hook", "at": at}
+            elif src["from"] == r or links[i] is None:
+                g["xs"] = conc_xs(c, i, links)          # keep its input, now spelled out
+            else:
+                g["src"] = dict(src, **{"from": src["from"] - (src["from"] > r)})
+        new.append(g)
+    sched = [j - (j > r) for j in c["schedule"] if j != r]
+    return dict(c, gens=new, schedule=sched)
+
+
+def _clip_hooks(g):
+    src = g.get("src")
+    if src and src["kind"] == "hook":
+        at = [[min(k, len(g["xs"])), j] for k, j in src["at"]]
+        at = [a for t, a in enumerate(at) if a not in at[:t]]
+        g = dict(g, src={"kind": "hook", "at": at})
+    return g
+
+
+def shrink_conc(c):
+    gens, sched = c["gens"], c["schedule"]
+    n = len(gens)
+    links = _links(c)
+    big = sorted({g["size"] for g in gens if g["entry"] == "chunks" and g["size"] > 32})
+    if big:
+        # large chunks are expensive to evaluate: first bring the sizes down (members sharing a size together,
+        # which keeps a same-key relation), trying only a handful of other candidates meanwhile
+        for sz in big:
+            for ns in (2, 3, 4, (sz + 1) // 2, sz - 1):
+                yield dict(c, gens=[_clip_hooks(dict(g, size=ns)) if g["entry"] == "chunks" and g["size"] == sz else g
+                                    for g in gens])
+        for r in range(n if n > 1 else 0):
+            yield _drop_gen(c, r)
+        if sched:
+            yield dict(c, schedule=sched[:-1])
+        return
+    if n > 1:                                   # fewer generators
+        for r in range(n):
+            yield _drop_gen(c, r)
+    if sched:                                   # shorter schedules
+        yield dict(c, schedule=[])
+        yield dict(c, schedule=sched[: len(sched) // 2])
+        yield dict(c, schedule=sched[:-1])
+        yield dict(c, schedule=sched[1:])
+        for t in range(1, min(len(sched) - 1, 24)):
+            yield dict(c, schedule=sched[:t] + sched[t + 1:])
+    for i, g in enumerate(gens):                # simpler sources
+        src = g.get("src") if g["entry"] == "chunks" else None
+        if not src:
+            continue
+        if links[i] is None:
+            d = dict(g, xs=conc_xs(c, i, links))
+            d.pop("src")
+            yield _with_gen(c, i, d)
+        elif src["kind"] == "hook":
+            at = src["at"]
+            for t in range(len(at)):
+                na = at[:t] + at[t + 1:]
+                d = dict(g)
+                d.pop("src")
+                if na:
+                    d["src"] = {"kind": "hook", "at": na}
+                yield _with_gen(c, i, d)
+            for t, (k, j) in enumerate(at):
+                if k > 0:
+                    yield _with_gen(c, i, dict(g, src={"kind": "hook", "at": at[:t] + [[k - 1, j]] + at[t + 1:]}))
+        else:
+            if src["header"]:
+                yield _with_gen(c, i, dict(g, src=dict(src, header=src["header"][:-1])))
+            d = dict(g, xs=conc_xs(c, i, links))
+            d.pop("src")
+            yield _with_gen(c, i, d)
+    # all chunk members that share a size shrink it together (keeps a same-key relation)
+    sizes = sorted({g["size"] for g in gens if g["entry"] == "chunks" and g["size"] > 1})
+    for sz in sizes:
+        for ns in (sz - 1, (sz + 1) // 2):
+            if ns != sz:
+                yield dict(c, gens=[_clip_hooks(dict(g, size=ns)) if g["entry"] == "chunks" and g["size"] == sz else g
+                                    for g in gens])
+    for i, g in enumerate(gens):                # the members themselves
+        for t, d in enumerate(shrink(g)):
+            if t >= 30:
+                break
+            yield _with_gen(c, i, _clip_hooks(d) if d["entry"] == "chunks" else d)
+        if g["entry"] == "chunks":
+            for k in ("seq_route", "malformed", "size_route"):
+                if k in g:
+                    d = dict(g)
+                    d.pop(k)
+                    yield _with_gen(c, i, d)
+
+
+# ---------------------------------------------------------------------------------------------
+def _tagged(fmt, tag, n):
+    """values that tell generators apart: member `tag` yields 40*tag+1, 40*tag+2, ... (mod the range of b)"""
+    vs = [(40 * tag + 1 + k % 39) for k in range(n)]
+    if fmt in "bhi":
+        return [v if tag < 3 else -v for v in vs]
+    return [f2j(v + 0.5) for v in vs]
+
+
+def _conc_chunk(rng, tag, fmt, size, order, strategy, n=None, malformed=False):
+    if n is None:
+        n = max(0, rng.choice([0, 1, size - 1, size, size + 1, 2 * size, 2 * size + 1, 3 * size - 1,
+                               rng.randint(0, 4 * size)]))
+    r = rng.random()
+    xs = _tagged(fmt, tag, n) if r < 0.55 else rand_vals(rng, fmt, n)
+    pad = (-(tag + 1) if fmt in "bhi" else f2j(-(tag + 1.25))) if r < 0.55 else rand_vals(rng, fmt, 1)[0]
+    kw = {}
+    if malformed and fmt in "bhi" and n:
+        lo, hi = int_range(fmt)
+        xs = list(xs)
+        xs[rng.randrange(n)] = rng.choice([hi + 1, lo - 1, f2j(1.5)])
+        kw["malformed"] = "range-or-float-item"
+    if rng.random() < 0.15:
+        kw["seq_route"] = rng.choice(["iter", "stream", "tuple"])
+    return chunk_case(fmt, order, size, xs, pad, strategy, **kw)
+
+
+def _conc_wav(rng, like=None):
+    if like is not None and rng.random() < 0.7:         # the same file on disk, maybe another `keep`
+        return dict(like, keep=like["keep"] if rng.random() < 0.5 else not like["keep"], route="path")
+    bits = like["bits"] if like is not None and rng.random() < 0.5 else rng.choice([8, 16, 24, 32])
+    channels = rng.choice([1, 2, 2])
+    nf = rng.choice([0, 1, 2, 3, rng.randint(0, 8)])
+    samples = [rand_sample(rng, bits) for _ in range(nf * channels)]
+    return wav_case(bits, channels, rng.random() < 0.5, samples,
+                    rate=rng.choice([8000, 44100, rng.randint(1, 400000)]),
+                    route=rng.choice(["path", "path", "fileobj", "wave"]))
+
+
+def _n_items(g):
+    if g["entry"] == "wav":
+        return len(g["samples"])
+    return -(-len(g["xs"]) // g["size"])
+
+
+def _schedule(rng, gens, free):
+    """an interleaving of next() calls over the generators in `free`"""
+    if not free:
+        return []
+    want = {i: _n_items(gens[i]) + rng.choice([0, 1, 1, 2]) for i in free}
+    style = rng.random()
+    sched = []
+    if style < 0.4:                                     # round robin
+        for _ in range(max(want.values())):
+            sched.extend(i for i in free if want[i] > len([1 for j in sched if j == i]))
+    elif style < 0.8:                                   # random interleaving
+        pool = [i for i in free for _ in range(want[i])]
+        rng.shuffle(pool)
+        sched = pool
+    elif style < 0.9:                                   # bursts
+        pool = [i for i in free for _ in range(want[i])]
+        while pool:
+            i = rng.choice(pool)
+            for _ in range(rng.randint(1, 3)):
+                if i in pool:
+                    pool.remove(i)
+                    sched.append(i)
+    else:                                               # one after the other (a generator dies, the next starts)
+        for i in free:
+            sched.extend([i] * want[i])
+    if rng.random() < 0.35 and sched:                   # partial consumption
+        sched = sched[: rng.randint(0, len(sched))]
+    return sched[:80]
+
+
+def _conc_random(rng):
+    ng = 2 if rng.random() < 0.65 else 3
+    r = rng.random()
+    kinds = ["chunks"] * ng if r < 0.6 else ["wav"] * ng if r < 0.78 else \
+        rng.choice([["chunks", "wav"], ["wav", "chunks"], ["chunks", "chunks", "wav"], ["chunks", "wav", "wav"],
+                    ["wav", "chunks", "chunks"]])
+    ng = len(kinds)
+    fmt, size = rng.choice("bhifd"), rng.choice([1, 2, 2, 3, 3, 4, 4, 5, rng.randint(1, 9)])
+    order, strategy = rng.choice(ORDERS), rng.choice(["array", "array", "struct"])
+    rel = rng.choice(["same-all", "same-all", "same-key", "same-key", "diff-size", "diff-fmt", "diff-all"])
+    gens, firstwav = [], None
+    for t, kd in enumerate(kinds):
+        if kd == "wav":
+            g = _conc_wav(rng, firstwav)
+            firstwav = firstwav or g
+        else:
+            f2, s2, o2, st2 = fmt, size, order, strategy
+            if rel != "same-all":
+                o2, st2 = rng.choice(ORDERS), rng.choice(["array", "struct"])
+            if rel in ("diff-size", "diff-all") and t:
+                s2 = rng.choice([x for x in range(1, 10) if x != size])
+            if rel in ("diff-fmt", "diff-all") and t:
+                f2 = rng.choice([x for x in "bhifd" if x != fmt])
+            g = _conc_chunk(rng, t, f2, s2, o2, st2, malformed=rng.random() < 0.06)
+        gens.append(g)
+    cg = [g for g in gens if g["entry"] == "chunks"]
+    if len(cg) >= 2 and rng.random() < 0.4:             # the same padval everywhere (a key could include it)
+        for g in cg[1:]:
+            if g["fmt"] in "fd" and cg[0]["fmt"] in "fd" and (g["fmt"] == "d" or cg[0]["fmt"] == "f"):
+                g["pad"] = cg[0]["pad"]           # (a double padval may be outside the float32 range)
+            elif g["fmt"] in "bhi" and isinstance(cg[0]["pad"], int):
+                g["pad"] = max(int_range(g["fmt"])[0], min(int_range(g["fmt"])[1], cg[0]["pad"]))
+    if cg and rng.random() < 0.15:                      # size left out: chunks.size
+        for g in cg:
+            if g["size"] == cg[0]["size"]:
+                g["size_route"] = "default"
+    free = list(range(ng))
+    mode = rng.random()
+    chunk_idx = [i for i, g in enumerate(gens) if g["entry"] == "chunks"]
+    if mode < 0.45:                                     # re-entrant: sources that advance later generators
+        for i in chunk_idx:
+            if i == ng - 1 or not gens[i]["xs"] and rng.random() < 0.5:
+                continue
+            if i > chunk_idx[0] and rng.random() < 0.5:
+                continue
+            g = gens[i]
+            nx, sz = len(g["xs"]), g["size"]
+            mids = [k for k in range(nx + 1) if k % sz]
+            at = []
+            for _ in range(rng.choice([1, 1, 2, 3])):
+                k = rng.choice(mids) if mids and rng.random() < 0.75 else rng.randint(0, nx)
+                a = [k, rng.randint(i + 1, ng - 1)]
+                if a not in at:
+                    at.append(a)
+            g["src"] = {"kind": "hook", "at": sorted(at)}
+            g.pop("seq_route", None)
+    elif mode < 0.62 and len(chunk_idx) >= 2:           # re-chunking pipeline: i reads the chunks of j
+        i, j = chunk_idx[0], chunk_idx[1]
+        gi, gj = gens[i], gens[j]
+        if gj["fmt"] not in "bhi":
+            gj = gens[j] = _conc_chunk(rng, j, rng.choice("bhi"), gj["size"], gj["order"], gj["strategy"])
+        if gj.get("malformed"):
+            gj = gens[j] = _conc_chunk(rng, j, gj["fmt"], gj["size"], gj["order"], gj["strategy"])
+        if rel in ("same-all", "same-key"):
+            gi["fmt"] = gj["fmt"]
+            gi["size"] = gj["size"]
+            if rel == "same-all":
+                gi["order"], gi["strategy"] = gj["order"], gj["strategy"]
+        elif gi["fmt"] in "bhi" and WIDTH[gi["fmt"]] < WIDTH[gj["fmt"]]:
+            gi["fmt"] = gj["fmt"]
+        gi.pop("malformed", None)
+        gi.pop("seq_route", None)
+        gi["xs"] = []
+        hl = rng.choice([0, 1, 1, 1, 2, rng.randint(0, gi["size"])])
+        gi["pad"] = -9 if gi["fmt"] in "bhi" else f2j(-9.5)
+        gi["src"] = {"kind": "rechunk", "from": j, "header": [100 + t for t in range(hl)]}
+        free = [t for t in free if t != j]
+    return conc_case(gens, _schedule(rng, gens, free), drain=rng.random() < 0.7)
+
+
+def generate_conc(rng, tier, scale=1):
+    quick = tier == "quick"
+    cases = []
+    if scale == 1:
+        # grid: generator 0 is suspended by its source before item k (every position of a chunk, and the end)
+        # while generator 1 runs one step; same (dfmt, size), every strategy pair, both key relations
+        for sa in ("array", "struct"):
+            for sb in ("array", "struct"):
+                for fmt in "bhifd":
+                    for size in (2, 3, 4):
+                        for k in range(0, size + 2):
+                            for nb in (1, size, size + 1):
+                                if quick and (k + nb + size + "bhifd".index(fmt)) % 2:
+                                    continue
+                                for samekey in (True, False):
+                                    a = chunk_case(fmt, "omit", size, _tagged(fmt, 0, size + 1),
+                                                   -1 if fmt in "bhi" else f2j(-1.25), sa,
+                                                   src={"kind": "hook", "at": [[k, 1]]})
+                                    b = chunk_case(fmt, "omit", size if samekey else size + 1, _tagged(fmt, 1, nb),
+                                                   -2 if fmt in "bhi" else f2j(-2.25), sb)
+                                    cases.append(conc_case([a, b], [0, 0, 1][: 1 + (k + nb) % 3], drain=True))
+        # the real default size (what AudioIO uses), explicit and through chunks.size
+        for sa in ("array", "struct"):
+            for sb in ("array", "struct"):
+                for route in ({}, {"size_route": "default"}):
+                    for fmt, order in (("f", "omit"), ("h", "<"), ("b", ">")):
+                        a = chunk_case(fmt, order, 2048, _tagged(fmt, 0, 3), -1 if fmt in "bhi" else f2j(-1.25), sa,
+                                       src={"kind": "hook", "at": [[1, 1], [3, 1]]}, **route)
+                        b = chunk_case(fmt, order, 2048, _tagged(fmt, 1, 2), -1 if fmt in "bhi" else f2j(-1.25), sb,
+                                       **route)
+                        cases.append(conc_case([a, b], [0], drain=True))
+        # grid: two WavStreams read alternately, same file on disk or two files
+        for bits in (8, 16, 24, 32):
+            lo, hi = wav_range(bits)
+            for channels in (1, 2):
+                for ka in (True, False):
+                    for kb in (True, False):
+                        for same in (True, False):
+                            sa = [lo, hi, 1, lo + 1, hi - 1, 2][: 3 * channels]
+                            sb = sa if same else [hi, lo, 3, hi - 2, lo + 2, 4, 5, 6][: 4 * channels]
+                            a = wav_case(bits, channels, ka, sa)
+                            b = wav_case(bits, channels, kb, sb)
+                            cases.append(conc_case([a, b], [0, 1] * (len(sb) + 1), drain=(bits + channels) % 3 != 0))
+    for _ in range((1500 if quick else 20000) * scale):
+        cases.append(_conc_random(rng))
+    return cases
